@@ -266,7 +266,8 @@ func ruleC05UP4(w *World, r *Report) {
 	for _, x := range []struct{ over, fn string }{{"PacketForwardingRules.pdrs", "releaseCounterID"}, {"PacketForwardingRules.fars", "removeGTPTunnelPeer"}, {"PacketForwardingRules.pdrs", "removeUeAddrAndFSEIDMappings"}} {
 		target := up(x.fn)
 		found := false
-		for _, l := range rangeLoopsOver(del, x.over) {
+		// (one iteration per deleted rule: over the list itself or over a local copy with one slot per rule)
+		for _, l := range w.loopsPerElementOf(del, x.over) {
 			if everyIteration(del, l[1], l[0], func(i ssa.Instruction) bool { return isCallTo(i, target) }) && len(loopEarlyExits(del, l[0])) == 0 {
 				found = true
 			}
